@@ -2610,6 +2610,501 @@ def run_history(ctx):
                     pass
 
 
+# ---------------------------------------------------------------------------
+# round 4: membership in plain sets — `x in S`, `A.contains_set(B[, atol])`,
+# `F.contains_all(array)`  (model: PSet.mem / PLeaf.containsSet / PLeaf.containsAllDtype)
+
+_ALPHA = 'abxy'
+_REALS = (bool, int, float, np.integer, np.floating)
+
+
+def describe_scalar(v):
+    """wire form of a Python / NumPy scalar (reads the live object)"""
+    if v is None:
+        return 'n'
+    if isinstance(v, np.bool_):
+        raise ValueError('np.bool_ is outside the model')
+    if isinstance(v, bool):
+        return 'b({})'.format(int(v))
+    if isinstance(v, (int, np.integer)):
+        return 'i({})'.format(int(v))
+    if isinstance(v, (float, np.floating)):
+        return 'r({})'.format(fs(v))
+    if isinstance(v, (complex, np.complexfloating)):
+        return '{}({},{})'.format('cn' if isinstance(v, np.complexfloating) else 'c',
+                                  fs(float(v.real)), fs(float(v.imag)))
+    if isinstance(v, str):
+        if not all(c in _ALPHA for c in v):
+            raise ValueError('text outside the model')
+        return 's({})'.format(v)
+    raise ValueError('value outside the model: {!r}'.format(type(v)))
+
+
+def describe_val(v):
+    if isinstance(v, (tuple, list)):
+        return 't(' + ','.join(describe_val(x) for x in v) + ')'
+    return describe_scalar(v)
+
+
+def describe_pset(o):
+    """wire form of a plain set, read from the live object's attributes"""
+    import odl
+    from odl.set import sets as S
+    t = type(o)
+    if t is S.EmptySet:
+        return 'empty'
+    if t is S.UniversalSet:
+        return 'universal'
+    if t is S.Strings:
+        return 'strings({})'.format(o.length)
+    if t is S.ComplexNumbers:
+        return 'complex'
+    if t is S.RealNumbers:
+        return 'real'
+    if t is S.Integers:
+        return 'integers'
+    if t is odl.IntervalProd:
+        return 'iv({},{})'.format(L([fs(x) for x in o.min_pt]), L([fs(x) for x in o.max_pt]))
+    if t is S.FiniteSet:
+        if any(isinstance(e, np.generic) for e in o.elements):
+            # `np_scalar == sequence` is element-wise / raises: outside the model (C20-F14)
+            raise ValueError('FiniteSet with NumPy scalar elements is outside the model')
+        return 'fs(' + ','.join(describe_scalar(e) for e in o.elements) + ')'
+    if t is S.CartesianProduct:
+        return 'cart(' + ','.join(describe_pset(m) for m in o.sets) + ')'
+    if t is S.SetUnion:
+        return 'union(' + ','.join(describe_pset(m) for m in o.sets) + ')'
+    if t is S.SetIntersection:
+        return 'inter(' + ','.join(describe_pset(m) for m in o.sets) + ')'
+    raise ValueError('set outside the model: {}'.format(t.__name__))
+
+
+def _dyq(rng, lo=-2, hi=3):
+    return rng.randint(lo * 4, hi * 4) / 4.0
+
+
+def gen_scalar(rng):
+    k = rng.randrange(10)
+    if k == 0:
+        return None
+    if k == 1:
+        return rng.random() < 0.5
+    if k == 2:
+        i = rng.randint(-2, 3)
+        return rng.choice([i, np.int8(i), np.int64(i)])
+    if k in (3, 4):
+        x = _dyq(rng)
+        return rng.choice([x, np.float32(x), np.float64(x), np.float16(x)])
+    if k == 5:
+        return float(rng.randint(-2, 3))
+    if k == 6:
+        z = complex(_dyq(rng), rng.choice([0.0, _dyq(rng)]))
+        return rng.choice([z, np.complex64(z), np.complex128(z)])
+    return ''.join(rng.choice(_ALPHA) for _ in range(rng.choice([0, 1, 1, 2, 2, 3])))
+
+
+def gen_val(rng, depth=0):
+    if depth < 2 and rng.random() < 0.3:
+        seq = [gen_val(rng, depth + 1) for _ in range(rng.choice([0, 1, 2, 2, 3]))]
+        return tuple(seq) if rng.random() < 0.6 else seq
+    return gen_scalar(rng)
+
+
+def gen_pleaf(rng, allow_zero_dim=True):
+    import odl
+    k = rng.randrange(12)
+    if k == 0:
+        return odl.EmptySet()
+    if k == 1:
+        return odl.UniversalSet()
+    if k == 2:
+        return odl.Strings(rng.randint(1, 3))
+    if k == 3:
+        return odl.ComplexNumbers()
+    if k == 4:
+        return odl.RealNumbers()
+    if k == 5:
+        return odl.Integers()
+    if k in (6, 7, 8, 9):
+        d = rng.choice([1, 1, 1, 2, 2, 3] + ([0] if allow_zero_dim and rng.random() < 0.3 else []))
+        lo = [_dyq(rng, -2, 1) for _ in range(d)]
+        hi = [l + rng.choice([0.0, 0.25, 0.5, 1.0, 2.0]) for l in lo]
+        return odl.IntervalProd(lo, hi)
+    els = [gen_scalar(rng) for _ in range(rng.choice([0, 1, 2, 3, 4]))]
+    if rng.random() < 0.9:
+        els = [e.item() if isinstance(e, np.generic) else e for e in els]
+    return odl.FiniteSet(*els)
+
+
+def gen_pset(rng, depth=0):
+    import odl
+    if depth >= 3 or rng.random() < (0.45 if depth else 0.25):
+        return gen_pleaf(rng)
+    k = rng.randrange(3)
+    n = rng.choice([0, 1, 2, 2, 3]) if rng.random() < 0.9 else 0
+    ms = [gen_pset(rng, depth + 1) for _ in range(n)]
+    if ms and rng.random() < 0.25:
+        ms.append(ms[0])                       # duplicate member (unions drop it)
+    ctor = (odl.CartesianProduct, odl.SetUnion, odl.SetIntersection)[k]
+    return ctor(*ms)
+
+
+def targeted_val(rng, S, depth=0):
+    """a value that has a fair chance of being a member of S"""
+    import odl
+    from odl.set import sets as M
+    t = type(S)
+    if t is M.EmptySet:
+        return None
+    if t is M.Strings:
+        n = S.length + (rng.random() < 0.2)
+        return ''.join(rng.choice(_ALPHA) for _ in range(n))
+    if t is M.Integers:
+        return rng.choice([rng.randint(-3, 3), True, np.int8(2), 2.0])
+    if t is M.RealNumbers:
+        return rng.choice([_dyq(rng), 1, False, np.float32(0.5), 1 + 0j])
+    if t is M.ComplexNumbers:
+        return rng.choice([complex(_dyq(rng), _dyq(rng)), 1, 0.5, True, np.complex64(1j)])
+    if t is odl.IntervalProd:
+        pt = []
+        for l, h in zip(S.min_pt, S.max_pt):
+            pt.append(rng.choice([float(l), float(h), float(l + h) / 2, float(l) - 0.25,
+                                  float(h) + 0.25]) if rng.random() < 0.9 else
+                      rng.choice([None, 1j, 'a', (0.0,)]))
+        if rng.random() < 0.15:
+            pt = pt + [0.0] if rng.random() < 0.5 else pt[:-1]
+        if len(pt) == 1 and rng.random() < 0.6:
+            return rng.choice([pt[0], np.float32(pt[0]) if isinstance(pt[0], float) else pt[0]])
+        if all(isinstance(x, float) for x in pt) and rng.random() < 0.2:
+            return [int(x) if x == int(x) else x for x in pt]
+        return tuple(pt) if rng.random() < 0.7 else list(pt)
+    if t is M.FiniteSet:
+        if S.elements and rng.random() < 0.8:
+            e = rng.choice(S.elements)
+            if isinstance(e, _REALS) and not isinstance(e, str) and rng.random() < 0.5:
+                return rng.choice([float(e), complex(e), int(e) if e == int(e) else e,
+                                   bool(e) if e in (0, 1) else e])
+            return e
+        return gen_scalar(rng)
+    if t is M.CartesianProduct:
+        items = [targeted_val(rng, m, depth + 1) for m in S.sets]
+        if items and all(isinstance(x, str) and len(x) == 1 for x in items) and rng.random() < 0.5:
+            return ''.join(items)
+        if rng.random() < 0.1:
+            items = items[:-1] if items and rng.random() < 0.5 else items + [None]
+        return tuple(items) if rng.random() < 0.6 else list(items)
+    if t in (M.SetUnion, M.SetIntersection):
+        if S.sets:
+            return targeted_val(rng, rng.choice(S.sets), depth + 1)
+        return gen_scalar(rng)
+    return gen_val(rng)
+
+
+def _is_real(x):
+    return isinstance(x, _REALS) and not isinstance(x, np.bool_)
+
+
+def expected_member(S, v):
+    """What `v in S` SHOULD be by the documented meaning of the set classes — written against
+    Python / NumPy types only, independent of the Lean model and of odl's own code."""
+    import odl
+    from odl.set import sets as M
+    t = type(S)
+    if t is M.EmptySet:
+        return v is None
+    if t is M.UniversalSet:
+        return True
+    if t is M.Strings:
+        return isinstance(v, str) and len(v) == S.length
+    if t is M.ComplexNumbers:
+        return _is_real(v) or isinstance(v, (complex, np.complexfloating))
+    if t is M.RealNumbers:
+        return _is_real(v)
+    if t is M.Integers:
+        return isinstance(v, (bool, int, np.integer))
+    if t is odl.IntervalProd:
+        if _is_real(v):
+            pt = [v]
+        elif isinstance(v, (tuple, list)) and all(_is_real(x) for x in v):
+            pt = list(v)
+        else:
+            return False
+        return len(pt) == S.ndim and all(float(l) <= float(x) <= float(h)
+                                         for l, x, h in zip(S.min_pt, pt, S.max_pt))
+    if t is M.FiniteSet:
+        if isinstance(v, (tuple, list)):
+            return False
+        return any(type(e == v) in (bool, np.bool_) and bool(e == v) for e in S.elements)
+    if t is M.CartesianProduct:
+        if not isinstance(v, (tuple, list, str)):
+            return False
+        return len(v) == len(S.sets) and all(expected_member(m, x) for m, x in zip(S.sets, v))
+    if t is M.SetUnion:
+        return any(expected_member(m, v) for m in S.sets)
+    if t is M.SetIntersection:
+        return all(expected_member(m, v) for m in S.sets)
+    raise ValueError('no expectation')
+
+
+def _has_seq(v):
+    return isinstance(v, (tuple, list))
+
+
+def _has_np_complex(v):
+    if isinstance(v, (tuple, list)):
+        return any(_has_np_complex(x) for x in v)
+    return isinstance(v, np.complexfloating)
+
+
+def _tree_has(S, pred):
+    if pred(S):
+        return True
+    return any(_tree_has(m, pred) for m in getattr(S, 'sets', ()))
+
+
+def member_cause(S, v, results):
+    """names the input class of a membership failure in words (for known_findings.json)"""
+    import odl
+    from odl.set import sets as M
+    if any(r.startswith('x:ValueError') for r in results) and _has_seq(v) and _tree_has(
+            S, lambda o: type(o) is M.FiniteSet and any(isinstance(e, np.generic)
+                                                        for e in o.elements)):
+        return ' cause=sequence-tested-against-FiniteSet-with-NumPy-scalar-elements'
+    if _has_np_complex(v) and _tree_has(S, lambda o: type(o) is odl.IntervalProd):
+        return ' cause=NumPy-complex-scalar-offered-to-IntervalProd'
+    return ''
+
+
+def _vkind(v):
+    if isinstance(v, (tuple, list)):
+        return 'seq{}'.format(min(len(v), 3))
+    return type(v).__name__
+
+
+def _mem(S, v):
+    import warnings
+    try:
+        with warnings.catch_warnings():
+            warnings.simplefilter('ignore')      # ComplexWarning of np.array(…, dtype=float)
+            r = v in S
+    except Exception as e:  # noqa
+        return 'x:' + type(e).__name__
+    return 't' if r is True else 'f' if r is False else 'x:nonbool-' + type(r).__name__
+
+
+def equal_variant(rng, S):
+    """a separately built set that should compare equal to S (members rebuilt, unions and
+    intersections permuted), or None"""
+    import odl
+    from odl.set import sets as M
+    t = type(S)
+    if t is odl.IntervalProd:
+        return odl.IntervalProd(S.min_pt.copy(), S.max_pt.copy())
+    if t is M.FiniteSet:
+        els = list(S.elements)
+        rng.shuffle(els)
+        return odl.FiniteSet(*els)
+    if t is M.Strings:
+        return odl.Strings(S.length)
+    if t in (M.SetUnion, M.SetIntersection):
+        ms = [equal_variant(rng, m) or m for m in S.sets]
+        rng.shuffle(ms)
+        return t(*ms)
+    if t is M.CartesianProduct:
+        return t(*[equal_variant(rng, m) or m for m in S.sets])
+    return t()
+
+
+def run_set_membership(ctx):
+    import odl
+    from odl.set import sets as M
+    rng = ctx.rng
+    nsets = 120 if ctx.quick else 900
+    lines, meta = [], []
+    for si in range(nsets):
+        S = gen_pset(rng)
+        try:
+            wire = describe_pset(S)
+        except ValueError:
+            wire = None                    # outside the model: oracle only
+        vals = [gen_val(rng) for _ in range(6)] + [targeted_val(rng, S) for _ in range(10)]
+        keep, wv = [], []
+        for v in vals:
+            try:
+                wv.append(describe_val(v))
+                keep.append(v)
+            except ValueError:
+                pass
+        impl = [_mem(S, v) for v in keep]
+        rep0 = {'kind': 'setmember', 'space': wire or repr(S)}
+        # oracle 1: documented meaning
+        for v, r, w in zip(keep, impl, wv):
+            ctx.case(('mem', cls(S), _vkind(v), r))
+            try:
+                want = 't' if expected_member(S, v) else 'f'
+            except ValueError:
+                continue
+            if r != want:
+                viol(ctx, 'set-member-wrong {} value={}{}'.format(cls(S), _vkind(v),
+                                                                 member_cause(S, v, [r])),
+                     '{!r} in {!r} gives {} (expected {})'.format(v, S, r, want),
+                     dict(rep0, x=w))
+        # oracle 2: membership respects `==` (separately built equal set)
+        try:
+            S2 = equal_variant(rng, S)
+            same = S2 is not None and (S == S2) is True
+        except Exception:  # noqa
+            same = False
+        if same:
+            for v, r, w in zip(keep, impl, wv):
+                r2 = _mem(S2, v)
+                ctx.case(None)
+                if r2 != r:
+                    viol(ctx, 'set-member-eq-incoherent {}{}'.format(
+                        cls(S), member_cause(S, v, [r, r2])),
+                         '{!r} == {!r} but {!r} in them gives {} / {}'.format(S, S2, v, r, r2),
+                         dict(rep0, x=w))
+        if wire is None:
+            ctx.hit('mem/outside-model(oracle only)')
+            continue
+        lines.append('mem S={} vals={}'.format(wire, L(wv)))
+        meta.append((wire, wv, impl, cls(S)))
+    outs = core.run_driver('C20', lines)
+    for (wire, wv, impl, c), ans in zip(meta, outs):
+        got = ''.join(r if r in 'tf' else 'x' for r in impl)
+        for r in got:
+            ctx.hit('mem/{}/{}'.format(c, r))
+        if ans != 'ok ' + got:
+            bad = [i for i, (a, b) in enumerate(zip(ans[3:], got)) if a != b]
+            ctx.disagree({'kind': 'setmember', 'space': wire,
+                          'x': [wv[i] for i in bad[:4]] if ans.startswith('ok ') else wv},
+                         got, ans)
+
+    # ---- contains_set on the non-composite sets
+    nleaf = 26 if ctx.quick else 70
+    leaves = [odl.EmptySet(), odl.UniversalSet(), odl.ComplexNumbers(), odl.RealNumbers(),
+              odl.Integers(), odl.Strings(2), odl.IntervalProd(0, 1), odl.IntervalProd(0.25, 0.75),
+              odl.IntervalProd([0, 0], [1, 1]), odl.IntervalProd([0.25, 0], [0.5, 1]),
+              odl.IntervalProd([], [])]
+    while len(leaves) < nleaf:
+        leaves.append(gen_pleaf(rng))
+        if rng.random() < 0.3:
+            leaves.append(equal_variant(rng, leaves[-1]))   # equal but distinct object
+    lw = []
+    for A in leaves:
+        try:
+            lw.append(describe_pset(A))
+        except ValueError:
+            lw.append(None)
+    leaves = [A for A, w in zip(leaves, lw) if w is not None]
+    lw = [w for w in lw if w is not None]
+    n = len(leaves)
+    atols = [None, 0.0, 0.25, 1.0, -0.25]
+
+    def cset(A, B, atol):
+        try:
+            r = A.contains_set(B) if atol is None else A.contains_set(B, atol=atol)
+        except AttributeError:
+            return 'e'
+        except Exception as e:  # noqa
+            return 'x:' + type(e).__name__
+        return 't' if r is True or r is np.True_ else 'f' if r is False or r is np.False_ \
+            else 'x:nonbool-' + type(r).__name__
+
+    lines, meta = [], []
+    C0 = [[None] * n for _ in range(n)]
+    probes = [[targeted_val(rng, B) for _ in range(8)] + [gen_val(rng) for _ in range(3)]
+              for B in leaves]
+    for i, A in enumerate(leaves):
+        is_iv = type(A) is odl.IntervalProd
+        for j, B in enumerate(leaves):
+            for atol in (atols if is_iv else [None]):
+                r = cset(A, B, atol)
+                rep = {'kind': 'containsset', 'space': lw[i], 'x': lw[j],
+                       'option': 'atol={}'.format(atol)}
+                ctx.case(('cset', cls(A), cls(B), atol, r))
+                ctx.hit('cset/{}/{}'.format(cls(A), r[0]))
+                if atol in (None, 0.0):
+                    C0[i][j] = r
+                if r.startswith('x') or (r == 'e' and hasattr(B, 'min') and hasattr(B, 'max')):
+                    viol(ctx, 'contains-set-raises {} {}'.format(cls(A), cls(B)),
+                         '{!r}.contains_set({!r}, atol={}) gives {}'.format(A, B, atol, r), rep)
+                # soundness w.r.t. membership (exact inclusion only)
+                if r == 't' and atol in (None, 0.0):
+                    for v in probes[j]:
+                        if _mem(B, v) == 't' and _mem(A, v) != 't':
+                            zero_dim = type(B) is odl.IntervalProd and B.ndim == 0
+                            viol(ctx, 'contains-set-unsound {} {}{}'.format(
+                                cls(A), cls(B), ' zero-dimensional' if zero_dim else ''),
+                                 '{!r}.contains_set({!r}) is True but {!r} is in the second '
+                                 'and not in the first'.format(A, B, v), rep)
+                            break
+                if i == j and r != 't' and (atol is None or atol >= 0):
+                    viol(ctx, 'contains-set-not-reflexive {}'.format(cls(A)),
+                         '{!r}.contains_set(itself, atol={}) gives {}'.format(A, atol, r), rep)
+                lines.append('cset A={} B={} atol={} same={}'.format(
+                    lw[i], lw[j], fs(0.0 if atol is None else atol), int(A is B)))
+                meta.append((rep, r))
+        if is_iv:
+            # monotone in atol
+            for j, B in enumerate(leaves):
+                rs = [cset(A, B, a) for a in (-0.25, 0.0, 0.25, 1.0)]
+                if any(rs[k] == 't' and rs[k + 1] == 'f' for k in range(3)):
+                    viol(ctx, 'contains-set-atol-not-monotone {}'.format(cls(B)),
+                         '{!r}.contains_set({!r}, atol) for atol=-0.25,0,0.25,1: {}'.format(
+                             A, B, rs), {'kind': 'containsset', 'space': lw[i], 'x': lw[j]})
+    # transitivity at atol = 0
+    for i in range(n):
+        for j in range(n):
+            if C0[i][j] != 't':
+                continue
+            for k in range(n):
+                if C0[j][k] == 't' and C0[i][k] != 't':
+                    zero_dim = any(type(X) is odl.IntervalProd and X.ndim == 0
+                                   for X in (leaves[j], leaves[k]))
+                    viol(ctx, 'contains-set-not-transitive {}{}'.format(
+                        cls(leaves[i]), ' zero-dimensional' if zero_dim else ''),
+                         '{!r} ⊇ {!r} ⊇ {!r} but the first does not contain the third ({})'.format(
+                             leaves[i], leaves[j], leaves[k], C0[i][k]),
+                         {'kind': 'containsset', 'space': lw[i], 'x': lw[k]})
+    outs = core.run_driver('C20', lines)
+    for (rep, r), ans in zip(meta, outs):
+        if ans != 'ok ' + (r if r in 'tfe' else 'x'):
+            ctx.disagree(rep, r, ans)
+
+    # ---- contains_all(array) of the number sets: a dtype test
+    names = list(DTYPE_NAMES) + ['S3', 'U2']
+    lines, meta = [], []
+    for F, w, kinds in ((odl.ComplexNumbers(), 'complex', 'iufc'), (odl.RealNumbers(), 'real', 'iuf'),
+                        (odl.Integers(), 'integers', 'iu')):
+        got = ''
+        dts = []
+        for nm in names:
+            try:
+                dt = np.dtype(nm)
+                dts.append(dtype_w(dt))
+            except (TypeError, ValueError):
+                continue
+            try:
+                r = F.contains_all(np.zeros(2, dtype=dt))
+                r = 't' if r is True else 'f' if r is False else 'x'
+            except Exception as e:  # noqa
+                r = 'x'
+            got += r
+            ctx.case(('call', w, dt.kind, r))
+            ctx.hit('call/{}/{}'.format(w, r))
+            if r != ('t' if dt.kind in kinds else 'f'):
+                viol(ctx, 'contains-all-wrong {} dtype={}'.format(cls(F), dt.name),
+                     '{!r}.contains_all(zeros(2, {})) gives {}'.format(F, dt, r),
+                     {'kind': 'containsall', 'space': w, 'dtype': dt.name})
+        lines.append('call A={} dts={}'.format(w, L(dts)))
+        meta.append((w, got))
+    outs = core.run_driver('C20', lines)
+    for (w, got), ans in zip(meta, outs):
+        if ans != 'ok ' + got:
+            ctx.disagree({'kind': 'containsall', 'space': w}, got, ans)
+
+
 def regenerate(ctx):
     from extract import dtypes as extract_dtypes
     changed = extract_dtypes.regenerate()
@@ -2628,6 +3123,7 @@ def run_all(ctx):
     run_derived(ctx, spaces, elems)
     run_element_options(ctx)
     run_history(ctx)
+    run_set_membership(ctx)
 
 
 def run(ctx):
